@@ -2,12 +2,24 @@ use crate::common::Ctx;
 use serde_json::Value;
 
 pub mod c15;
+pub mod c17;
+
+type RunFn = fn(&Ctx) -> i32;
+type ReplayFn = fn(&Ctx, &Value) -> Result<(bool, String), String>;
+
+fn table(prop: &str) -> Option<(RunFn, ReplayFn)> {
+    Some(match prop {
+        "C15" => (c15::run, c15::replay),
+        "C17" => (c17::run, c17::replay),
+        _ => return None,
+    })
+}
 
 pub fn run(ctx: &Ctx) -> i32 {
-    match ctx.prop.as_str() {
-        "C15" => c15::run(ctx),
-        other => {
-            eprintln!("ENGINE-ERROR unknown property {}", other);
+    match table(&ctx.prop) {
+        Some((r, _)) => r(ctx),
+        None => {
+            eprintln!("ENGINE-ERROR unknown property {}", ctx.prop);
             2
         }
     }
@@ -30,10 +42,10 @@ pub fn replay(ctx: &Ctx, path: &str) -> i32 {
         }
     };
     let case = &v["case"];
-    let f: fn(&Ctx, &Value) -> Result<(bool, String), String> = match ctx.prop.as_str() {
-        "C15" => c15::replay,
-        other => {
-            eprintln!("ENGINE-ERROR no replay for {}", other);
+    let f: ReplayFn = match table(&ctx.prop) {
+        Some((_, f)) => f,
+        None => {
+            eprintln!("ENGINE-ERROR no replay for {}", ctx.prop);
             return 2;
         }
     };
